@@ -90,6 +90,10 @@ type compiler struct {
 	codeScratchpad []instruction
 
 	stringCache map[unistring.String]Value
+
+	// > 0 while the initialiser expression of a class field is being compiled (its code is emitted
+	// later into the class initialisation function, where 'super' property access is allowed)
+	inFieldInit int
 }
 
 type binding struct {
